@@ -74,7 +74,8 @@ func validateBlock(evidencePool EvidencePool, store Store, state LatestBlockStat
 
 	// Validate block LastCommit
 	if block.Height() == state.InitialHeight {
-		if len(block.LastCommit().Signatures) != 0 {
+		// the first block may come without a LastCommit at all (Block.ValidateBasic allows nil here)
+		if lastCommit := block.LastCommit(); lastCommit != nil && len(lastCommit.Signatures) != 0 {
 			return ErrLastCommitSig
 		}
 	} else {
